@@ -5,6 +5,7 @@ package main
 // reflected in the checks without editing a harness.
 
 import (
+	"regexp"
 	"fmt"
 	"go/ast"
 	"go/parser"
@@ -160,6 +161,47 @@ func addGenerated(ov map[string][]byte) error {
 			return err
 		}
 		ov["/repo/protocol/model/zz_verif_gen_types.go"] = data
+		ov["/repo/protocol/model/zz_verif_gen_vectors.go"] = genVectors()
 	}
 	return nil
+}
+
+var hexVec = regexp.MustCompile(`"((?:7[eE]|3031636|2031636)[0-9a-fA-F]{8,})"`)
+
+// genVectors collects the hex inputs of the repository's own tests (frames and RTP packets) so that
+// the selftest can push them through the executor and through the native build and compare.
+func genVectors() []byte {
+	seen := map[string]bool{}
+	var frames, rtp []string
+	for _, f := range []string{"/repo/protocol/jt808/jt808_test.go", "/repo/protocol/model/parse_test.go", "/repo/protocol/model/reply_test.go", "/repo/protocol/jt1078/jt1078_test.go"} {
+		data, err := os.ReadFile(f)
+		if err != nil {
+			continue
+		}
+		for _, m := range hexVec.FindAllStringSubmatch(string(data), -1) {
+			v := strings.ToLower(m[1])
+			if seen[v] || len(v)%2 != 0 || len(v) > 1400 {
+				continue
+			}
+			seen[v] = true
+			if strings.HasPrefix(v, "7e") {
+				frames = append(frames, v)
+			} else {
+				rtp = append(rtp, v)
+			}
+		}
+	}
+	sort.Strings(frames)
+	sort.Strings(rtp)
+	var sb strings.Builder
+	sb.WriteString("//go:build verif\n\npackage model\n\n// Generated from the repository's own test files on every run. Do not edit.\n\nvar vrtFrameVectors = []string{\n")
+	for _, v := range frames {
+		fmt.Fprintf(&sb, "\t%q,\n", v)
+	}
+	sb.WriteString("}\n\nvar vrtRTPVectors = []string{\n")
+	for _, v := range rtp {
+		fmt.Fprintf(&sb, "\t%q,\n", v)
+	}
+	sb.WriteString("}\n")
+	return []byte(sb.String())
 }
